@@ -172,6 +172,17 @@ CHECKS["C16"] = (
     "DESIGN.md section 3, C16",
 )
 
+CHECKS["C17"] = (
+    "exhaustive enumeration of (entry point x slot x payload x expression context) and of whitelist-probing token strings, under an audit-hook monitor",
+    "Every analysing entry point (parsers incl. infer_type variants, emitters, doctrans, sync, gen from file, sync_properties without "
+    "--input-eval, JSON-schema parse) is run on inputs carrying each of 14 adversarial payloads in each docstring/code slot, each quoting and "
+    "each of 11 expression contexts, and the docstring parser on every description of <= 3 (thorough 4) tokens over a 15-token alphabet "
+    "probing the character whitelist; sys.addaudithook records compile/exec/import/open/process/socket events and the oracle rejects any "
+    "execution of input-derived code beyond name loads, any sentinel import, foreign write, process or network event.",
+    "CPython audit events are complete for these effects; input-derived code is recognised by marker substrings; two sanctioned paths serve as positive controls",
+    "DESIGN.md section 3, C17",
+)
+
 PENDING_REASON = "check not built yet in this revision (planned, see DESIGN.md section 3); no claim is made"
 
 
